@@ -1,1 +1,243 @@
-pub fn run(_ctx: mc_core::Ctx) -> ! { mc_core::report::machinery_failure("todo") }
+//! C12 — KES keys sign verifiably for exactly their current period.
+//! SEQ / model checking: the history is the evolution sequence. The model is
+//! the abstract KES automaton of depth d: states t = 0..2^d-1, `update` leads
+//! from t to t+1 and is refused in 2^d-1; observations period(t) = t, public
+//! key constant, verify(p) accepts iff p = t. The complete history of every
+//! sum / compact-sum type of depth 1..7 is replayed on the real key for every
+//! seed of the grid and every observation is compared with the model.
+
+use crate::kes::{self, KesType, Walk};
+use mc_core::{cov, json, Ctx, Level, Value};
+use rayon::prelude::*;
+use std::collections::BTreeSet;
+
+#[derive(Default)]
+struct Stats {
+    states: u64,
+    transitions: u64,
+    traces: u64,
+    verify_calls: u64,
+    accepted_at_own_period: u64,
+    rejected_at_other_period: u64,
+    sig_roundtrips: u64,
+    resumed: u64,
+    resume_mismatch: u64,
+    failed_update_changed_buffer: u64,
+    buffers: BTreeSet<Vec<u8>>,
+    sample: Option<Value>,
+}
+
+fn check_walk(ctx: &Ctx, ty: &KesType, seed: &[u8; 32], msgs: &[Vec<u8>], w: &Walk) -> Stats {
+    let mut s = Stats::default();
+    let total: u32 = 1 << ty.depth;
+    let fam = ty.family;
+    let base = |t: u32| json!({"type": ty.name, "depth": ty.depth, "seed": hex::encode(seed), "updates": t});
+    if let Some((op, p)) = &w.panic {
+        ctx.violation(p.site(), format!("{}::{op} panicked after {} updates: {} at {}", ty.name, w.steps.len().saturating_sub(1), p.message, p.location), base(w.steps.len().saturating_sub(1) as u32));
+    }
+    let mut trace = vec![];
+    for (i, st) in w.steps.iter().enumerate() {
+        let t = st.t;
+        debug_assert_eq!(i as u32, t);
+        if t >= total {
+            // only reachable when update succeeded in the last period (reported below)
+            break;
+        }
+        s.states += 1;
+        s.buffers.insert([ty.name.as_bytes(), &st.buf].concat());
+        if st.period != t {
+            ctx.violation(format!("{fam}:get_period"), format!("{} evolved {t} times reports period {}", ty.name, st.period), base(t));
+        }
+        if st.pk != w.keygen_pk {
+            ctx.violation(format!("{fam}:to_pk-changes"), format!("{} evolved {t} times: to_pk = {}, keygen returned {}", ty.name, hex::encode(st.pk), hex::encode(w.keygen_pk)), base(t));
+        }
+        let mut ok_at: BTreeSet<u32> = BTreeSet::new();
+        for so in &st.sigs {
+            let mcase = || {
+                let mut c = base(t);
+                c["message"] = json!(hex::encode(&msgs[so.msg]));
+                c
+            };
+            s.sig_roundtrips += 1;
+            if let Some(e) = &so.roundtrip_err {
+                ctx.violation(format!("{fam}:signature-bytes-roundtrip"), format!("{} period {t}: {e} (signature {})", ty.name, hex::encode(&so.bytes)), mcase());
+            } else if so.roundtrip_verifies == Some(false) {
+                ctx.violation(format!("{fam}:signature-bytes-roundtrip"), format!("{} period {t}: the signature restored from its bytes no longer verifies", ty.name), mcase());
+            }
+            let mut seen_own = false;
+            for (p, ok, err) in &so.verify {
+                s.verify_calls += 1;
+                if *p == t {
+                    seen_own = true;
+                    if *ok {
+                        s.accepted_at_own_period += 1;
+                        ok_at.insert(*p);
+                    } else {
+                        ctx.violation(format!("{fam}:verify-rejects-own-period"), format!("{} evolved {t} times: its signature does not verify at period {t}: {err}", ty.name), mcase());
+                    }
+                } else if *ok {
+                    ok_at.insert(*p);
+                    let mut c = mcase();
+                    c["verified_at_period"] = json!(p);
+                    ctx.violation(format!("{fam}:verify-accepts-other-period"), format!("{} evolved {t} times: its signature also verifies at period {p}", ty.name), c);
+                } else {
+                    s.rejected_at_other_period += 1;
+                }
+            }
+            if !seen_own && w.panic.is_none() {
+                mc_core::report::machinery_failure("C12: own period missing from the verification set");
+            }
+        }
+        // transition
+        match (&st.update_err, t + 1 == total) {
+            (None, false) | (Some(_), true) => {}
+            (Some(e), false) => {
+                ctx.violation(format!("{fam}:update-fails-early"), format!("{}::update failed at period {t} of {total}: {e}", ty.name), base(t));
+            }
+            (None, true) => {
+                if w.steps.len() as u32 > total {
+                    ctx.violation(format!("{fam}:update-succeeds-in-last-period"), format!("{}::update succeeded at period {t} = 2^{} - 1", ty.name, ty.depth), base(t));
+                }
+            }
+        }
+        if let Some((after, per)) = &st.after_failed_update {
+            if after != &st.buf || *per != st.period {
+                s.failed_update_changed_buffer += 1;
+            }
+        }
+        if trace.len() < 4 || t + 1 == total {
+            trace.push(json!({"t": t, "period": st.period, "pk_unchanged": st.pk == w.keygen_pk, "verifies_at": ok_at, "update": st.update_err.clone().unwrap_or_else(|| "ok".into())}));
+        }
+        // differential from this (non-initial) state: a key restored from the
+        // buffer behaves like the evolved one. Diagnostic, not part of the verdict.
+        if let Some(so) = st.sigs.last() {
+            s.resumed += 1;
+            match (ty.resume)(&st.buf, &msgs[so.msg]) {
+                Err(_) => s.resume_mismatch += 1,
+                Ok(r) => {
+                    let next = match (&st.update_err, w.steps.get(i + 1), &st.after_failed_update) {
+                        (None, Some(n), _) => Some(&n.buf),
+                        (Some(_), _, Some((a, _))) => Some(a),
+                        _ => None,
+                    };
+                    if r.period != st.period || r.pk != st.pk || r.sig != so.bytes || r.update_ok != st.update_err.is_none() || next.map(|n| n != &r.buf_after).unwrap_or(false) {
+                        s.resume_mismatch += 1;
+                    }
+                }
+            }
+        }
+    }
+    if w.panic.is_none() && (w.steps.len() as u32) < total && w.steps.last().map(|l| l.update_err.is_none()).unwrap_or(true) {
+        mc_core::report::machinery_failure(&format!("C12: walk of {} stopped after {} states without a failing update", ty.name, w.steps.len()));
+    }
+    s.traces = 1;
+    s.transitions = w.updates_attempted;
+    s.sample = Some(json!({"type": ty.name, "seed": hex::encode(seed), "trace(first states and last)": trace}));
+    s
+}
+
+pub fn seeds(n: usize) -> Vec<[u8; 32]> {
+    let mut v: Vec<[u8; 32]> = vec![[0u8; 32], [0xff; 32], core::array::from_fn(|i| i as u8)];
+    let mut k = 0;
+    while v.len() < n {
+        v.push(kes::pattern(32, 900 + k).try_into().unwrap());
+        k += 1;
+    }
+    v.truncate(n);
+    v
+}
+
+pub fn run(ctx: Ctx) -> ! {
+    let types = kes::all_types();
+    let seeds = seeds(if ctx.thorough { 16 } else { 3 });
+    let mut msgs: Vec<Vec<u8>> = vec![vec![], kes::pattern(33, 1)];
+    if ctx.thorough {
+        msgs.push(kes::pattern(1, 2));
+        msgs.push(kes::pattern(1024, 3));
+    }
+    let mut jobs: Vec<(KesType, [u8; 32])> = types.iter().flat_map(|t| seeds.iter().map(move |s| (*t, *s))).collect();
+    jobs.sort_by_key(|(t, _)| std::cmp::Reverse(t.depth));
+    let per: Vec<Stats> = jobs
+        .par_iter()
+        .map(|(ty, seed)| {
+            let total: u32 = 1 << ty.depth;
+            let all = move |_t: u32| (0..total).collect::<Vec<u32>>();
+            let w = (ty.walk)(seed, &msgs, &all);
+            check_walk(&ctx, ty, seed, &msgs, &w)
+        })
+        .collect();
+    let mut tot = Stats::default();
+    let mut samples = vec![];
+    for (i, s) in per.into_iter().enumerate() {
+        tot.states += s.states;
+        tot.transitions += s.transitions;
+        tot.traces += s.traces;
+        tot.verify_calls += s.verify_calls;
+        tot.accepted_at_own_period += s.accepted_at_own_period;
+        tot.rejected_at_other_period += s.rejected_at_other_period;
+        tot.sig_roundtrips += s.sig_roundtrips;
+        tot.resumed += s.resumed;
+        tot.resume_mismatch += s.resume_mismatch;
+        tot.failed_update_changed_buffer += s.failed_update_changed_buffer;
+        tot.buffers.extend(s.buffers);
+        // one sample per construction at a small depth, plus one deep one
+        let (ty, _) = &jobs[i];
+        if let Some(v) = s.sample {
+            if (ty.depth == 2 || ty.depth == 7) && samples.len() < 4 && jobs[..i].iter().filter(|(t, _)| t.name == ty.name).count() == 1 {
+                samples.push(v);
+            }
+        }
+    }
+    let expect_states: u64 = seeds.len() as u64 * 2 * (1..=7).map(|d| 1u64 << d).sum::<u64>();
+    let expect_rejects: u64 = seeds.len() as u64 * 2 * msgs.len() as u64 * (1..=7).map(|d| (1u64 << d) * ((1u64 << d) - 1)).sum::<u64>();
+    if ctx.violation_count() == 0
+        && (tot.states != expect_states
+            || tot.transitions != expect_states
+            || tot.accepted_at_own_period != expect_states * msgs.len() as u64
+            || tot.rejected_at_other_period != expect_rejects
+            || tot.buffers.len() as u64 != expect_states)
+    {
+        mc_core::report::machinery_failure(&format!(
+            "C12: coverage differs from the stated space: states {} (expected {expect_states}), transitions {}, accepted {}, rejected {} (expected {expect_rejects}), distinct buffers {}",
+            tot.states,
+            tot.transitions,
+            tot.accepted_at_own_period,
+            tot.rejected_at_other_period,
+            tot.buffers.len()
+        ));
+    }
+    if tot.resume_mismatch > 0 {
+        ctx.note(format!("diagnostic: {} of {} keys restored with from_bytes(as_bytes()) behaved differently from the evolved key", tot.resume_mismatch, tot.resumed));
+    }
+    if tot.failed_update_changed_buffer > 0 {
+        ctx.note(format!("diagnostic: the refused update changed the key buffer or period in {} walks", tot.failed_update_changed_buffer));
+    }
+    let cov = cov! {
+        "states" => tot.states,
+        "transitions" => tot.transitions,
+        "traces_validated_against_impl" => tot.traces,
+        "samples" => samples,
+        "rule" => "state = (KES type, seed, number of updates t); every state of every type Sum{1..7}Kes and Sum{1..7}CompactKes is reached by replaying update^t on a real key made by keygen; in each state get_period, to_pk, sign (each message), Sig::to_bytes/from_bytes and verify at EVERY period 0..2^d-1 are compared with the model (period = t, key unchanged, accept iff p = t); transitions = update calls including the refused one in state 2^d-1; a trace = one maximal evolution history (2^d - 1 updates + the refused update) per (type, seed)",
+        "exhaustive" => true,
+        "fixpoint" => true,
+        "kes_types" => types.len(),
+        "seeds" => seeds.len(),
+        "messages" => msgs.len(),
+        "verify_calls" => tot.verify_calls,
+        "accepted_at_own_period" => tot.accepted_at_own_period,
+        "rejected_at_other_period" => tot.rejected_at_other_period,
+        "signature_roundtrips" => tot.sig_roundtrips,
+        "distinct_key_buffers" => tot.buffers.len(),
+        "states_resumed_from_bytes(diagnostic)" => tot.resumed,
+        "resume_mismatches(diagnostic)" => tot.resume_mismatch,
+    };
+    ctx.finish(
+        Level::ModelChecking,
+        cov,
+        &[
+            "seeds and messages are a fixed grid (all-zero, all-ff, counter, pseudo-random fill); the evolution space per seed (all periods of all depths 1..7) is complete",
+            "periods >= 2^depth (out of range) are not given to verify",
+            "the refused update leaving the buffer untouched and from_bytes(as_bytes()) resuming identically are logged as diagnostics only (not stated by the property)",
+        ],
+    )
+}
